@@ -27,7 +27,7 @@ if False:  # pylint: disable=using-constant-test
     import ctypes  # NOQA pylint: disable=unused-import
     from mmap import mmap  # NOQA pylint: disable=unused-import
     import pickle  # NOQA pylint: disable=unused-import
-    from typing import Any, Optional, Union  # NOQA pylint: disable=unused-import
+    from typing import Any, List, Optional, Tuple, Union  # NOQA pylint: disable=unused-import
 
 
 class PyCdlibIO(io.RawIOBase):
@@ -36,23 +36,80 @@ class PyCdlibIO(io.RawIOBase):
     Since ISOs are generally only readable, this is only a readable context
     manager.
     """
-    __slots__ = ('_ctxt', '_fp', '_length', '_offset', '_open', '_startpos')
+    __slots__ = ('_ctxts', '_parts', '_length', '_offset', '_open')
 
-    def __init__(self, ino, logical_block_size):
-        # type: (inode.Inode, int) -> None
+    def __init__(self, ino, logical_block_size, continuation_inos=None):
+        # type: (inode.Inode, int, Optional[List[inode.Inode]]) -> None
         super(PyCdlibIO, self).__init__()  # pylint: disable=super-with-arguments
-        self._ctxt = inode.InodeOpenData(ino, logical_block_size)
+        # A very large file is stored in several parts, each of which has an
+        # Inode of its own; continuation_inos are the Inodes of the parts that
+        # follow the first one.
+        self._ctxts = [inode.InodeOpenData(ino, logical_block_size)]
+        if continuation_inos is not None:
+            for cont_ino in continuation_inos:
+                self._ctxts.append(inode.InodeOpenData(cont_ino,
+                                                       logical_block_size))
         self._open = True
 
     def __enter__(self):
-        # _fp is the real file descriptor.  _length is the logical length
-        # of the file.  _offset is the logical offset of this context
-        # into the file.  _startpos is the absolute offset of the start of
-        # this file into the backing file.
-        (self._fp, self._length) = self._ctxt.__enter__()
-        self._startpos = self._fp.tell()
+        # _parts has one entry for each part of the file: the real file
+        # descriptor, the absolute offset of the start of the part into
+        # that backing file, the logical offset of the part into the file and
+        # the length of the part.  _length is the logical length of the file.
+        # _offset is the logical offset of this context into the file.
+        self._parts = []  # type: List[Tuple[Any, int, int, int]]
+        self._length = 0
+        for ctxt in self._ctxts:
+            (fp, length) = ctxt.__enter__()
+            self._parts.append((fp, fp.tell(), self._length, length))
+            self._length += length
         self._offset = 0
         return self
+
+    def _seek_part(self, offset):
+        # type: (int) -> Tuple[Any, int]
+        """
+        Position the backing file of the part that holds the logical offset.
+
+        Parameters:
+         offset - The logical offset into the file; must be before the end.
+        Returns:
+         A tuple of the backing file and the number of bytes from the offset
+         to the end of that part.
+        """
+        for (fp, startpos, partstart, partlen) in self._parts:
+            if offset < partstart + partlen:
+                fp.seek(startpos + offset - partstart)
+                return fp, partstart + partlen - offset
+
+        # This should never happen.
+        raise pycdlibexception.PyCdlibInternalError('Offset is beyond the end of the file')
+
+    def _read_parts(self, readsize):
+        # type: (int) -> bytes
+        """
+        Read data starting at the current logical offset, moving on from one
+        part of the file to the next as necessary.
+
+        Parameters:
+         readsize - The number of bytes to read; must not go beyond the end of
+                    the file.
+        Returns:
+         The data that was read.
+        """
+        datalist = []
+        offset = self._offset
+        while readsize > 0:
+            fp, thislen = self._seek_part(offset)
+            data = fp.read(min(thislen, readsize))
+            if not data:
+                # The backing file ended early; there is nothing more to get.
+                break
+            datalist.append(data)
+            offset += len(data)
+            readsize -= len(data)
+
+        return b''.join(datalist)
 
     def read(self, size=None):
         # type: (Optional[int]) -> bytes
@@ -77,8 +134,7 @@ class PyCdlibIO(io.RawIOBase):
             data = self.readall()
         else:
             readsize = min(self._length - self._offset, size)
-            self._fp.seek(self._startpos + self._offset)
-            data = self._fp.read(readsize)
+            data = self._read_parts(readsize)
             self._offset += readsize
 
         return data
@@ -99,8 +155,7 @@ class PyCdlibIO(io.RawIOBase):
 
         readsize = self._length - self._offset
         if readsize > 0:
-            self._fp.seek(self._startpos + self._offset)
-            data = self._fp.read(readsize)
+            data = self._read_parts(readsize)
             self._offset += readsize
         else:
             data = b''
@@ -117,8 +172,7 @@ class PyCdlibIO(io.RawIOBase):
             mv = memoryview(b)
             m = mv.cast('B')
             readsize = min(readsize, len(m))
-            self._fp.seek(self._startpos + self._offset)
-            data = self._fp.read(readsize)
+            data = self._read_parts(readsize)
             n = len(data)
             m[:n] = data
             self._offset += n
@@ -157,7 +211,7 @@ class PyCdlibIO(io.RawIOBase):
                 raise pycdlibexception.PyCdlibInvalidInput('Invalid offset value (must be positive)')
 
             if offset < self._length:
-                self._fp.seek(self._startpos + offset, 0)
+                self._seek_part(offset)
 
             self._offset = offset
         elif whence == 1:
@@ -166,7 +220,7 @@ class PyCdlibIO(io.RawIOBase):
                 raise pycdlibexception.PyCdlibInvalidInput('Invalid offset value (cannot seek before start of file)')
 
             if self._offset + offset < self._length:
-                self._fp.seek(self._startpos + self._offset + offset, 0)
+                self._seek_part(self._offset + offset)
 
             self._offset += offset
         elif whence == 2:
@@ -175,7 +229,7 @@ class PyCdlibIO(io.RawIOBase):
                 raise pycdlibexception.PyCdlibInvalidInput('Invalid offset value (cannot seek before start of file)')
 
             if self._length + offset < self._length:
-                self._fp.seek(self._startpos + self._length + offset, 0)
+                self._seek_part(self._length + offset)
 
             self._offset = self._length + offset
         else:
@@ -250,7 +304,9 @@ class PyCdlibIO(io.RawIOBase):
          Nothing.
         """
         self._open = False
-        self._ctxt.__exit__()
+        for ctxt in self._ctxts:
+            ctxt.__exit__()
 
     def __exit__(self, *args):
-        self._ctxt.__exit__()
+        for ctxt in self._ctxts:
+            ctxt.__exit__()
